@@ -24,7 +24,8 @@ def main():
                      ('hidden', dp.sess_c03, 40, 400, {'profile': 'hidden'}),
                      ('explore_chords', dp.sess_c03, 40, 400, {'profile': 'explore_chords'}),
                      ('dots', dp.sess_c03, 40, 400, {'dots': True}),
-                     ('multi_character_signifiers', dp.sess_c03, 60, 800, {'profile': 'multi_sigs'})],
+                     ('multi_character_signifiers', dp.sess_c03, 60, 800, {'profile': 'multi_sigs'}),
+                     ('root_spines', dp.sess_c03, 20, 300, {'profile': 'with_root'})],
         nontrivial=lambda s: bool(set(s['tags']) & {'split', 'chord', 'non-kern'}),
         explored=['hidden_barline', 'chord_note_without_duration'])
 
